@@ -38,7 +38,7 @@ LEVEL_NOTE = (
 )
 DESIGN_REF = "DESIGN.md section 5 and section 6, C08"
 RULE = (
-    "case = (query shape, resolver style per field coordinate in {default, sync, async}, outcome overrides on <=k response paths from "
+    "case = (query shape, resolver style per field coordinate in {default, sync, async, nested = deferred result that is itself deferred}, outcome overrides on <=k response paths from "
     "{ResolverError, unexpected RuntimeError, null}); per case every configuration is run, and under asyncio / thread pool all "
     "completion orders (+ early completions up to the bound); baton cases = combinator harnesses x all interleavings up to the "
     "preemption bound. evaluation = one execution compared with the reference; non-trivial = distinct (case, config, schedule) "
@@ -50,8 +50,8 @@ ASSUMPTIONS = [
     "one injected unexpected exception per scenario (so 'that exception' is unambiguous)",
 ]
 BOUNDS = {
-    "quick": {"styles": "uniform+single-deviation", "overrides": "singles", "free_order_upto": 4, "early_bound": 1, "early_bound_small": 1, "baton_preemptions": 2},
-    "thorough": {"styles": "all 3^k", "overrides": "singles+pairs", "free_order_upto": 5, "early_bound": 1, "early_bound_small": 2, "baton_preemptions": 3},
+    "quick": {"styles": "uniform+single-deviation", "overrides": "singles", "free_order_upto": 4, "early_bound": 0, "early_bound_small": 1, "deviations_large": 1, "baton_preemptions": 2},
+    "thorough": {"styles": "all 4^k", "overrides": "singles+pairs", "free_order_upto": 5, "early_bound": 1, "early_bound_small": 2, "deviations_large": 2, "baton_preemptions": 3},
 }
 TIME_CAP = {"quick": 150, "thorough": 1500}
 
@@ -69,7 +69,7 @@ SHAPES = [
     ("nested-list", "{ l { l { x } } }", ["Obj.l", "Obj.x"]),
     ("typename", "{ __typename o { __typename x } a }", ["Query.o", "Obj.x", "Query.a"]),
 ]
-STYLES = ("default", "sync", "async")
+STYLES = ("default", "sync", "async", "nested")
 
 
 def _style_assignments(coords, tier):
@@ -84,16 +84,22 @@ def _style_assignments(coords, tier):
     for base in ("sync", "async"):
         out.append(tuple([base] * k))
         for i in range(k):
-            for alt in STYLES:
+            for alt in ("default", "sync", "async"):
                 if alt != base:
                     c = [base] * k
                     c[i] = alt
                     out.append(tuple(c))
     # alternating mixes
-    out.append(tuple(STYLES[(i % 2) + 1] for i in range(k)))
-    out.append(tuple(STYLES[((i + 1) % 2) + 1] for i in range(k)))
+    out.append(tuple(("sync", "async")[i % 2] for i in range(k)))
+    out.append(tuple(("async", "sync")[i % 2] for i in range(k)))
     out.append(tuple(("default", "async")[i % 2] for i in range(k)))
     out.append(tuple(("async", "default")[i % 2] for i in range(k)))
+    # a deferred result that is itself deferred: one such field among default / sync ones
+    for i in range(k):
+        for base in ("default", "sync"):
+            c = [base] * k
+            c[i] = "nested"
+            out.append(tuple(c))
     for c in out:
         if c not in seen and any(x != "default" for x in c):
             seen.add(c)
@@ -170,10 +176,13 @@ def _check_exec(case, st, tier):
                     out.append((_classify(cfg, ref, obs), {"kind": "exec", "scn": scn, "config": cfg, "choices": []},
                                 "expected %s got %s" % (_key(ref), _key(obs))))
                 continue
+            # all completion orders are free (cost 0) while few results are in flight; beyond that an
+            # out-of-order completion costs one deviation, like an early / batched completion
             free = ndef <= b["free_order_upto"]
-            bound = b["early_bound_small"] if ndef <= 3 else b["early_bound"]
-            if not free:
-                bound = max(bound, 2)
+            if free:
+                bound = b["early_bound_small"] if ndef <= 3 else b["early_bound"]
+            else:
+                bound = b["deviations_large"]
 
             def body(ch, cfg=cfg, scn=scn, free=free):
                 return _run(cfg, scn, ch, free)
